@@ -38,6 +38,18 @@ def fresh_empty_local(ex, t):
     return bool(zero_counts and same_hist and const_int(c_) == 0 and const_int(s_) == 0 and not [c for c in ex.calls_to(["Atomic::inc_by", "AtomicU64::inc_by_with_ordering"])])
 
 
+def cleared_clone_of_self(b, r):
+    """r (a term of body b) is a handle that wraps ONE clone of self.core, and that very clone is cleared exactly once, on every path, in b
+    (`LocalHistogram { core: self.core.clone() }.clear()` or `let mut c = self.core.borrow().clone(); c.clear(); RefCell::new(c)`)."""
+    cl = b.calls_to(["LocalHistogram::clear", "LocalHistogramCore::clear"])
+    clones = [x for x in subterms(r) if isinstance(x, tuple) and x and x[0] == "call" and is_call(x, "Clone::clone") and core_recv(x[2][0]) == CORE] if isinstance(r, tuple) else []
+    ok = len(cl) == 1 and count_range(b, [cl[0].bb]) == (1, 1) and isinstance(r, tuple) and r[0] == "agg" and r[2].endswith("LocalHistogram::LocalHistogram") and len(set(clones)) == 1
+    if ok:
+        recv = cl[0].args[0]
+        ok = clones[0] in list(subterms(recv)) or peel(recv) == r
+    return bool(ok)
+
+
 def rule_local_histogram(ctx, f, rid):
     ctx.rule(rid, "local histogram effect summaries: flush (C03.R2 shape) then clear(); clear zeroes every element of counts, count and sum; LocalHistogram::{observe,flush,clear} "
                   "forward to the core exactly once; Clone clears the copy before returning it; Drop flushes on every path; start from zero")
@@ -93,14 +105,7 @@ def rule_local_histogram(ctx, f, rid):
     if b:
         ctx.saw(b)
         r = peel(b.term_local(0))
-        cl = b.calls_to(["LocalHistogram::clear", "LocalHistogramCore::clear"])
-        # the returned handle wraps ONE clone of self.core, and that very clone is cleared exactly once before the return
-        # (`LocalHistogram { core: self.core.clone() }.clear()` or `let mut c = self.core.borrow().clone(); c.clear(); RefCell::new(c)`)
-        clones = [x for x in subterms(r) if isinstance(x, tuple) and x and x[0] == "call" and is_call(x, "Clone::clone") and core_recv(x[2][0]) == CORE] if isinstance(r, tuple) else []
-        ok = len(cl) == 1 and count_range(b, [cl[0].bb]) == (1, 1) and isinstance(r, tuple) and r[0] == "agg" and r[2].endswith("LocalHistogram::LocalHistogram") and len(set(clones)) == 1
-        if ok:
-            recv = cl[0].args[0]
-            ok = clones[0] in list(subterms(recv)) or peel(recv) == r
+        ok = cleared_clone_of_self(b, r)
         if not ok:
             # built empty in the first place: LocalHistogram::new(<clone of this handle's shared histogram>), i.e. zero counters around the same Histogram
             from pvrules import inline
